@@ -2,7 +2,7 @@
 enumerated by TLC out of specs/StmtShapes.tla, and runs them on real SQLite engines.
 
 A shape travels as its name  "k|f|c|w|d|o"  (StmtShapes!Name):
-  k  sel | orm | ins | upd | del | lam | ddl | txt | typ    statement kind (ddl: CREATE TABLE d; txt: TextualSelect, o = named | pos;
+  k  sel | orm | ins | upd | del | lam | ddl | txt | typ | insm    statement kind (insm: executemany INSERT..RETURNING, see build) (ddl: CREATE TABLE d; txt: TextualSelect, o = named | pos;
                                                             typ: typed construct c = cast | tcoerce | literal | bind with type o in TYPES)
   f  a | join | outer | s1 | xjoin              FROM: a / a JOIN b / a LEFT JOIN b / s1.a / a JOIN s1.a
   c  none | eq | in | eqand | orin              criteria (lam: lscalar | llist | lcol | ltab | lmulti | lwhere | lcrit | lexpr)
@@ -208,6 +208,10 @@ def build(sh, val, T=None):
     a = T("s1") if f == "s1" else T(None)
     if k == "ddl":
         return sa.schema.CreateTable(w.dtabs[a.schema])
+    if k == "insm":
+        # multi-row INSERT .. RETURNING (insertmanyvalues) whose VALUES holds a scalar subquery against the table in the OTHER schema
+        src = T(None) if f == "s1" else T("s1")
+        return sa.insert(a).values(y=sa.select(sa.func.max(src.c.id)).scalar_subquery()).returning(a.c.id, a.c.y)
     if k == "typ":
         T = TYPES[o]()
         bval = none0(val["b"])
@@ -360,6 +364,12 @@ class Engines:
         self.plain.dispose()
 
 
+def insm_params(sh):
+    """the parameter sets of the executemany call (the valuation is attached to the parsed shape by the caller)"""
+    val = sh["val"]
+    return [{"x": val["n"]}, {"x": none0(val["b"])}]
+
+
 def is_orm(sh):
     return sh["k"] == "orm" or (sh["k"] == "lam" and sh["c"] == "lcrit")
 
@@ -377,6 +387,9 @@ def run(conn, log, sh, stmt, opts):
                     if conn.exec_driver_sql("select count(*) from %s.sqlite_master where name='d'" % sname).scalar():
                         rows.append((OFF[sname],))
                         conn.exec_driver_sql("drop table %s.d" % sname)      # (pysqlite runs DDL outside the transaction)
+            elif sh["k"] == "insm":
+                r = conn.execute(stmt, insm_params(sh), execution_options=opts)
+                rows = [tuple(x) for x in r.all()]
             elif is_orm(sh):
                 with Session(conn) as s:
                     r = s.execute(stmt, execution_options=opts)
